@@ -115,7 +115,10 @@ def matrix_programs():
     macros = ["macro a(expr e) { n = [e]; }\nmacro b(expr e) { a([e + 1]); }\nout int n;\nparser { \"x\"; b(5); }",
               "macro a(match p) { p; }\nmacro b(match p) { a((p \"!\")); a((\"?\" p)); }\nparser { b(\"x\"); }",
               "macro a() { a(); }\nparser { a(); }", "macro a() { b(); }\nmacro b() { a(); }\nparser { \"x\"; a(); }", "macro a(expr e) { n = [e]; }\nout int n;\nparser { \"x\"; a(e); }",
-              "macro a(match m) { m; }\nparser { a(m); }", "macro a(out o) { o = 1; }\nparser { \"x\"; a(a); }", "macro a() { }\nparser { a(); \"x\"; }", "macro a(macro m) { m(m); }\nparser { \"x\"; a(a); }"]
+              "macro a(match m) { m; }\nparser { a(m); }", "macro a(out o) { o = 1; }\nparser { \"x\"; a(a); }", "macro a() { }\nparser { a(); \"x\"; }", "macro a(macro m) { m(m); }\nparser { \"x\"; a(a); }",
+              # recursion through a deeply nested body: the interpreter's stack runs out long before any bound on the expansion depth is reached
+              "macro a() {\n    loop { optional { try { case { \"x\" -> { loop { optional { try { case { \"y\" -> { a(); } } } catch { } } } } } } catch { } } }\n}\nparser { a(); }",
+              "macro a(match m) { loop { optional { try { case { m -> { loop { optional { try { case { \"y\" -> { b(m); } } } catch { } } } } } } catch { } } } }\nmacro b(match m) { a((m \"z\")); }\nparser { b(\"q\"); }"]
     for i, m in enumerate(macros):
         out.append({"name": f"matrix/macro{i}", "src": m + "\n", "args": []})
     # action-only conditionals whose branches differ in how they leave the transition (break / finish / finish code / append that can run out of
